@@ -330,7 +330,12 @@ func specExamples(t *testing.T, plan harness.Plan) {
 
 func TestProperty(t *testing.T) {
 	plan := plan()
-	plan.After = func(t *testing.T) { specExamples(t, plan) }
+	plan.After = func(t *testing.T) {
+		specExamples(t, plan)
+		if !t.Failed() {
+			boundaries(t, plan)
+		}
+	}
 	harness.Run(t, plan)
 }
 
@@ -342,6 +347,7 @@ func plan() harness.Plan {
 		{Name: "code_verbatim", Quick: 40000, Thorough: 400000, Gen: genCode, Prop: prop,
 			Rule: "arbitrary lines (markdown syntax, leading spaces, fence-like runs, tabs) as the content of fenced and indented code blocks at the top level, in a quote, in list items, in a list in a quote and after a paragraph in an item, under LF/CRLF/CR; expected = the lines byte for byte"},
 		{Name: "model_large", Quick: 5000, Thorough: 80000, Gen: genDoc(model.Large), Prop: prop, Rule: "larger size bounds (depth 5, 7 blocks per container, 8 inlines per run): " + rule},
+		{Name: "boundaries", Prop: prop, Rule: "enumerated boundary documents on either side of every numeric limit and name table of the spec (see the check's bound)"},
 		{Name: "spec_examples", Prop: prop, Rule: "every example of the 0.30 spec whose expected HTML has no raw HTML, compared in the O3 form (white space inside text is significant)"},
 	}}
 }
